@@ -1,9 +1,12 @@
 /* libmy/my_fileset.c (real: my_fileset_reload, setfile_updated, fetch_entry, cmp_fileset_entry, path_exists, my_fileset_get)
- * from an arbitrary fileset state: <= 2 loaded entries, a setfile of <= 2 lines naming one-letter tables in directory "d",
+ * from an arbitrary fileset state: <= 2 loaded entries, a setfile of <= 3 lines naming one-letter tables in directory "d",
  * each table present or missing on disk.  stat/fopen/getline/fclose/dirname and bsearch/qsort are modelled by their contracts. */
 #include <sys/stat.h>
 #include "libmy/my_fileset.c"
 #include "spec/ghost.h"
+#ifndef VG_MYFS_LINES
+#define VG_MYFS_LINES 2
+#endif
 /* string functions by their definitions, for the short names used here (paths are at most 5 characters); fixed-size objects */
 size_t strlen(const char *s) { size_t n = 0; while (n < 8 && s[n]) n++; return n; }
 int strcmp(const char *a, const char *b) { for (size_t i = 0; i < 8; i++) { unsigned char x = a[i], y = b[i]; if (x != y) return (int)x - (int)y; if (!x) return 0; } return 0; }
@@ -22,14 +25,23 @@ void *calloc(size_t a, size_t b)
 	}
 	VG_A(0, "unexpected calloc size in this harness"); __CPROVER_assume(0); return NULL;
 }
-/* vector growth is a cut point (R12): the new set is built in a vector created with room for ONE entry, so paths on which
- * the reload produces two or more entries end here (auxiliary obligation below fails if reached: it is expected reachable and
- * is tolerated for this group only -- the bound of this harness is "new set of at most one entry") */
-void *realloc(void *p, size_t n) { __CPROVER_assume(0); return p; }
+/* vector growth: the new set is built in a vector created with room for one entry and doubled on demand.  realloc by its
+ * ISO C contract (7.22.3.5: a new object whose contents equal the old one's up to the lesser of the two sizes), written for
+ * arrays of pointers (the only objects that grow here: names are short, the 64-byte name buffer never grows); the old size is
+ * the size of the object passed in. */
+void *realloc(void *p, size_t n)
+{
+	size_t old = __CPROVER_OBJECT_SIZE(p);
+	VG_A(n % sizeof(void *) == 0 && n <= 4 * sizeof(void *), "only the entry vector grows in this harness");
+	void **q = malloc(n);
+	for (size_t i = 0; i < 4; i++) if (i * sizeof(void *) < old && i * sizeof(void *) < n) q[i] = ((void **)p)[i];
+	free(p);
+	return q;
+}
 
 static _Bool vg_exists[3];              /* d/a, d/b, d/c present on disk */
 static _Bool vg_setfile_changed;
-static unsigned vg_nlines; static char vg_line_name[2];     /* letters 'a'..'c' */
+static unsigned vg_nlines; static char vg_line_name[3];     /* letters 'a'..'c' */
 int stat(const char *path, struct stat *sb)
 {
 	if (path[0] == 's') {                /* the setfile "s" */
@@ -75,14 +87,15 @@ void h_myfs_reload_step(void)
 	for (int i = 0; i < 3; i++) if (in_loaded[i]) entry_vec_add(fs->entries, vg_entry((char)('a' + i)));
 	for (int i = 0; i < 3; i++) vg_exists[i] = nondet_bool();
 	vg_setfile_changed = nondet_bool();
-	vg_nlines = nondet_u32(); __CPROVER_assume(vg_nlines <= 2);
-	for (int i = 0; i < 2; i++) { vg_line_name[i] = nondet_u8(); __CPROVER_assume(vg_line_name[i] >= 'a' && vg_line_name[i] <= 'c'); }
-	if (vg_nlines == 2) __CPROVER_assume(vg_line_name[0] != vg_line_name[1]);      /* distinct names (duplicates in a setfile are outside the property) */
+	vg_nlines = nondet_u32(); __CPROVER_assume(vg_nlines <= VG_MYFS_LINES);
+	for (int i = 0; i < 3; i++) { vg_line_name[i] = nondet_u8(); __CPROVER_assume(vg_line_name[i] >= 'a' && vg_line_name[i] <= 'c'); }
+	if (vg_nlines >= 2) __CPROVER_assume(vg_line_name[0] != vg_line_name[1]);
+	if (vg_nlines >= 3) __CPROVER_assume(vg_line_name[0] != vg_line_name[2] && vg_line_name[1] != vg_line_name[2]);      /* distinct names (duplicates in a setfile are outside the property) */
 
 	my_fileset_reload(fs);
 	VG_REACH("my_fileset_reload returns");
 	_Bool named[3] = {0, 0, 0};
-	for (unsigned i = 0; i < 2; i++) if (i < vg_nlines) named[vg_line_name[i] - 'a'] = 1;
+	for (unsigned i = 0; i < 3; i++) if (i < vg_nlines) named[vg_line_name[i] - 'a'] = 1;
 	for (int c = 0; c < 3; c++) {
 		_Bool want = vg_setfile_changed ? (named[c] && vg_exists[c]) : in_loaded[c];
 		_Bool have = 0; const char *fn; void *p;
@@ -94,6 +107,6 @@ void h_myfs_reload_step(void)
 		} else VG_P("C07", vg_loads[c] == 0 && vg_unloads[c] == 0, "an unchanged setfile loads and unloads nothing");
 	}
 	for (size_t i = 0; i < entry_vec_size(fs->entries); i++) VG_P("C18,C07", entry_vec_value(fs->entries, i)->keep == false, "invariant: no entry of the new set carries a stale keep mark");
-	if (entry_vec_size(fs->entries) == 2) VG_P("C07", strcmp(entry_vec_value(fs->entries, 0)->fname, entry_vec_value(fs->entries, 1)->fname) < 0, "invariant: the set stays sorted by name (lookup uses binary search)");
+	for (size_t i = 1; i < 3; i++) if (i < entry_vec_size(fs->entries)) VG_P("C07", strcmp(entry_vec_value(fs->entries, i - 1)->fname, entry_vec_value(fs->entries, i)->fname) < 0, "invariant: the set stays sorted by name (lookup uses binary search)");
 	VG_P("C18", vg_open_files == 0, "the setfile is closed again");
 }
